@@ -147,9 +147,17 @@ def _make(pid):
         viol = []
         with ThreadPoolExecutor(max_workers=4) as ex:
             results = list(ex.map(lambda s: (s[0],) + run_scenario(s[0]), todo))
+        flaky = []
         for sid, rc, lines in results:
             if rc == 0:
                 continue
+            # a failure must repeat (alone, not next to three other pipelines) before it is reported: a scenario that fails once and
+            # passes on the same tree is listed in the evidence as not reproducible, not raised as an alarm
+            rc2, lines2 = run_scenario(sid)
+            if rc2 == 0:
+                flaky.append(sid)
+                continue
+            rc, lines = rc2, lines2
             v = {"obligation": "%s.scenarios.%s" % (pid, sid), "inputs": {"scenario": sid, "report": _report(lines)}, "observed": lines[-12:],
                  "required": "the demonstration's checks of the property's sentence pass (exit 0)", "replay_call": "contracts.c_scenarios:replay_scenario"}
             if rc != 1:
@@ -159,7 +167,7 @@ def _make(pid):
             viol.append(v)
         return {"cases": len(todo), "bound": "%d scenario(s): %s%s" % (len(todo), ", ".join(s for s, _ in todo),
                                                                        ("; thorough tier only: " + ", ".join(skipped)) if skipped else ""),
-                "violations": viol, "samples": [{"scenario": todo[0][0]}] if todo else []}
+                "violations": viol, "samples": ([{"scenario": todo[0][0]}] if todo else []) + ([{"failed_once_then_passed": flaky}] if flaky else [])}
     return check
 
 
@@ -167,5 +175,5 @@ for _pid in sorted({sid.split("_")[0] for sid in _all_ids()}):
     if _scenarios(_pid):
         bounded("%s.scenarios" % _pid, [_pid],
                 note="scenario library: %d demonstration(s) written by independent agents for seeded changes; each builds its inputs, drives the "
-                     "real code (mostly the whole pipeline) of the tree under check and tests the property's sentence on the outputs; bounded to "
-                     "these scenarios" % len(_scenarios(_pid)))(_make(_pid))
+                     "real code (mostly the whole pipeline) of the tree under check and tests the property's sentence on the outputs; a failure "
+                     "is reported when it repeats in a second run; bounded to these scenarios" % len(_scenarios(_pid)))(_make(_pid))
